@@ -37,6 +37,23 @@ def verdict (st : St) (env : Spec.Env) (op : Spec.OpReq) (o : Obs) (twinKey : Op
     match fails ++ twinFail with
     | [] => ("ok", twins)
     | f :: _ => ("fail:" ++ f, twins)
+  else if st.prop = "C05" then
+    let kindName := match env.kind with | .memoryMap => "map" | .singleSlot => "slot" | .reference _ => "reference"
+    let fails :=
+      (match Spec.c05_store_contract env.pre o.trace with
+        | .none => []
+        | .foundOtherRp => [s!"store-contract:{kindName}:returned-a-credential-bound-to-another-rp"]
+        | .foundUnlisted => [s!"store-contract:{kindName}:returned-a-credential-not-in-the-id-list"]
+        | .nothingWithoutList => [s!"store-contract:{kindName}:nothing-returned-without-an-id-list-although-the-rp-has-credentials"]
+        | .missedListed => [s!"store-contract:{kindName}:listed-credential-of-the-rp-not-returned"])
+      ++ (match op with
+        | .get r =>
+          (if Spec.c05_assert_uses_lookup r o then [] else ["assertion-not-with-first-credential-of-the-lookup-for-rp-and-allow-list"])
+          ++ (if Spec.c05_assert_bound env.pre r o then [] else ["assertion-with-credential-of-another-rp-or-outside-allow-list"])
+        | .make r => if Spec.c05_excluded_iff env r o then [] else ["credential-excluded-not-exactly-when-listed-credential-held-for-rp"])
+    match fails with
+    | [] => ("ok", st.twins)
+    | f :: _ => ("fail:" ++ f, st.twins)
   else ("na", st.twins)
 
 def step (st : St) (op : List String) (impl : String) : St × String :=
